@@ -374,6 +374,63 @@ def h_programmatic(eng, endpoints, act, second):
         once("second")
 
 
+def h_anonymous_redefinitions(eng, order):
+    """contexts built in code that carry unit redefinitions: different context objects (unnamed,
+    or with the same name) never share what was computed for one another, and a redefinition
+    added after a first activation is honoured by the next one"""
+    from pint import Context
+
+    su, x = eng.real("su"), eng.real("x")
+    eng.assume(su > 0)
+    # (Context.redefine reads its text with the default numeric type, not the registry's: the
+    # redefinition factors are concrete integers)
+    ka, kb, kc = 7, 11, 13
+    for v in (ka, kb, kc):
+        eng.assume(Not(Eq(su, v)))
+    L = lambda v: eng.lit(v) if not isinstance(v, int) else str(v)  # noqa: E731
+    ureg = regs.build(eng, ["m = [length]", "s = [time]", "kk- = 1000", f"u = {L(su)} * m", "w = 3 * u"])
+    ca, cb = Context(), Context()
+    ca.redefine(f"u = {L(ka)} * m")
+    cb.redefine(f"u = {L(kb)} * m")
+
+    def w2m():
+        return ureg.Quantity(x, "w").to("m").magnitude, ureg.Quantity(x, "kku").to("m").magnitude, ureg.get_root_units("w")[0]
+
+    def expect(k, tag):
+        a, b, c = w2m()
+        eng.prove(Eq(a, 3 * k * x), tag + ":w->m")
+        eng.prove(Eq(b, 1000 * k * x), tag + ":kku->m")
+        eng.prove(Eq(c, 3 * k), tag + ":root(w)")
+
+    seq = {"ab": [(ca, ka), (cb, kb), (ca, ka)], "ba": [(cb, kb), (ca, ka), (cb, kb)]}[order]
+    expect(su, "before")
+    for i, (ctx, k) in enumerate(seq):
+        with ureg.context(ctx):
+            expect(k, f"anonymous-context-{i}")
+        expect(su, f"after-anonymous-context-{i}")
+    # nested: the inner redefinition wins, the outer one is back afterwards
+    with ureg.context(ca):
+        with ureg.context(cb):
+            expect(kb, "nested-inner")
+        expect(ka, "nested-outer-again")
+    # a redefinition added to a context that has been active before
+    ca.redefine(f"w = {L(kc)} * m")
+    with ureg.context(ca):
+        a = ureg.Quantity(x, "w").to("m").magnitude
+        b = ureg.Quantity(x, "u").to("m").magnitude
+        eng.prove(And(Eq(a, kc * x), Eq(b, ka * x)), "redefinition-added-after-first-activation")
+    expect(su, "final")
+    # enable_contexts / disable_contexts with the same objects
+    ureg.enable_contexts(cb)
+    expect(kb, "enabled-b")
+    ureg.disable_contexts()
+    ureg.enable_contexts(ca)
+    a = ureg.Quantity(x, "u").to("m").magnitude
+    eng.prove(Eq(a, ka * x), "enabled-a-after-b")
+    ureg.disable_contexts()
+    expect(su, "all-disabled")
+
+
 # ----------------------------------------------------------------------------- path search
 
 
@@ -464,6 +521,8 @@ def cases(tier, seed):
     for ep in ("derived", "derived-both", "base-expr", "container"):
         for act in ("per-call-object", "per-call-name", "per-call-default", "with-kw", "with-default", "nested-inherits", "enable-kw"):
             out.append(Case("H11.d", f"{ep}:{act}", M, "h_programmatic", {"endpoints": ep, "act": act, "second": True}, opts=mixed, validate=1))
+    for order in ("ab", "ba"):
+        out.append(Case("H11.d", f"anonymous-redefinitions:{order}", M, "h_anonymous_redefinitions", {"order": order}, opts=mixed, validate=1))
     # path search: all graphs with 4 nodes (first row enumerated by cases, the rest by forks)
     for n in (3, 4):
         for row in itertools.product([0, 1], repeat=n - 1):
